@@ -1,6 +1,6 @@
 CONSTANTS
   MaxDepth = 1
-  Shapes <- ShapesThorough
+  Shapes <- ShapesThoroughBook
   FullMaskSize = 4
 SPECIFICATION Spec
 CHECK_DEADLOCK FALSE
